@@ -40,6 +40,7 @@ def run(ctx):
     ctx.rule(centres)
     ctx.rule(purity)
     ctx.rule(fc.banks_stateless, "R-C05-pure")
+    ctx.rule(scale_names)
 
 
 def range_rule(ctx, R="R-C05-range"):
@@ -377,3 +378,10 @@ def purity(ctx, R="R-C05-pure"):
         c = fc.bank(prog, name)
         f = prog.own_method(c, "get_frequency_response")
         fresh_and_pure(ctx, R, f, "%s.get_frequency_response" % name)
+
+
+
+def scale_names(ctx, R="R-C05-spacing"):
+    """a bank configured with a scale by name is laid out on the documented scale of that name"""
+    from .c08 import family_names_resolve
+    family_names_resolve(ctx, R, "scales.ScalingFunction", {"linear": "LinearScaling", "octave": "OctaveScaling", "mel": "MelScaling", "bark": "BarkScaling"})
